@@ -1,0 +1,7 @@
+//go:build verif
+
+package iterator
+
+import "github.com/csgura/fp"
+
+func verifYield(op string) { fp.VerifYield(op) }
